@@ -257,6 +257,12 @@ func genWrapIP(c *lib.Ctx) {
 			c.Count("wrapip:discarded")
 			continue
 		}
+		if made == 0 {
+			// under machine load the 80 ms of the call can pass before the client's first request
+			// reaches the peer: nothing of the plan was executed, there is nothing to record
+			c.Count("wrapip:discarded:no-request-within-the-deadline")
+			continue
+		}
 		if silent {
 			// the context deadline has passed: the remaining attempts fail before sending anything
 			for k := made; k < 3; k++ {
